@@ -113,6 +113,22 @@ def cmp(ctx, what, got_hrefs, want_counter):
 def run_case(ctx, i, rng):
     n = gen_ir.generate(rng, profile="any" if i % 2 else "edif", share=0.6, ndefs=rng.randint(4, 12), max_children=rng.choice([3, 4, 5]),
                         top_child_ok=(i % 5 == 0), style="mixed" if i % 3 == 0 else "simple")
+    if i % 10 == 7 and n.top_instance is not None and n.top_instance.reference is not None:
+        # many siblings: a cell with dozens of instances of one leaf, itself used twice (paths that differ in two places)
+        topd_ = n.top_instance.reference
+        lib_ = topd_.library
+        leafs_ = [d_ for l_ in n.libraries for d_ in l_.definitions if d_.is_leaf() and d_ is not topd_ and len(d_.ports)]
+        if lib_ is not None and leafs_:
+            fan = lib_.create_definition("FANOUT_%d" % i)
+            lf_ = rng.choice(leafs_)
+            fc = fan.create_cable("fnet", wires=1)
+            for k_ in range(rng.choice([33, 40, 64, 100])):
+                ch_ = fan.create_child("s%d" % k_, reference=lf_)
+                if k_ % 7 == 0:
+                    fc.wires[0].connect_pin(next(iter(ch_.pins)))
+            topd_.create_child("fan_a", reference=fan)
+            topd_.create_child("fan_b", reference=fan)
+            ctx.count("netlists_with_dozens_of_siblings")
     if i % 4 == 3:
         n = n.clone()           # a cloned netlist is a netlist like any other: its occurrences are enumerated and valid
         ctx.count("cloned_netlists_queried")
